@@ -85,8 +85,9 @@ def noise_line(rng):
     if r < 0.38:
         # fragment number 0 (with any count and id): rejected by the sequencing, whatever is open; count 0 with number
         # 1: rejected while a group is open, a one-line message of its own when none is - never a new group
+        # (count 0 with a number >= 2 is NOT noise: it is 'fragment k' of C06 and continues an open group that expects k)
         if rng.random() < 0.4:
-            return ais.sentence(gen.random_alphabet(rng, 5), nf=0, fn=rng.choice([1, 1, 0, 2]), mid=rng.choice([None, 0, 1, 2, 3, 5]), fill=0)
+            return ais.sentence(gen.random_alphabet(rng, 5), nf=0, fn=rng.choice([1, 1, 0]), mid=rng.choice([None, 0, 1, 2, 3, 5]), fill=0)
         return ais.sentence(gen.random_alphabet(rng, 5), nf=rng.choice([1, 2, 3, 9]), fn=0, mid=rng.choice([None, 0, 1, 2, 3, 5]), fill=0)
     if r < 0.42:
         # a fragment of any position, well formed, with a wrong checksum
@@ -201,12 +202,22 @@ class C05:
             pa = parse_answer(a)
             conv = op.split(" ")[4]
             if cfg == "noalloc" and total > 384:
-                # over the no-alloc capacity (C18's permitted difference): the group must be refused,
-                # never delivered short
-                for _, a2 in frags[i:]:
-                    if parse_answer(a2)["cls"] == "C":
-                        rep.violation("C05: the no-alloc build delivered a group that exceeds its buffer (pieces are missing)",
-                                      {"cfg": cfg, "ops": [strip(o) for o in ops], "impl": [x for x in impl]})
+                # over the no-alloc capacity (C18's permitted difference): some line of the group is refused, and what
+                # happens afterwards follows from the state the refusal left (a refused line leaves no trace, so a later
+                # fragment may legitimately continue an older open group).  The statement makes no promise about such a
+                # group; the lines must be answered as the no-alloc model answers them (proved: C18.step_noalloc), and
+                # the group itself, which does not fit, is never delivered whole.
+                mfr = [m2 for o2, m2 in zip(ops, model) if o2.startswith("#frag")]
+                for (o2, a2), m2 in zip(frags, mfr):
+                    if a2.rsplit(" st=", 1)[0] != m2.rsplit(" st=", 1)[0]:
+                        rep.violation("C05: a group exceeding the no-alloc buffer is answered differently from the no-alloc model",
+                                      {"cfg": cfg, "ops": [strip(o) for o in ops], "impl": a2, "model": m2})
+                        return
+                    p2 = parse_answer(a2)
+                    if p2["cls"] == "C" and p2["sent"]["data"] == b"".join(
+                            ref_sentence(bytes.fromhex(o3.split(" ")[5]))[1]["data"] for o3, _ in frags).hex():
+                        rep.violation("C05: the no-alloc build delivered a group that exceeds its buffer",
+                                      {"cfg": cfg, "ops": [strip(o) for o in ops], "impl": a2})
                         return
                 rep.count("noalloc-over-capacity")
                 return
